@@ -28,6 +28,7 @@ Apply(nn, l) ==
     [] l[1] = "lss"    -> [ev |-> RxEv(2021, 8, Pad8(<<4, 0>>)), r |-> Rx(nn, 2021, 8, Pad8(<<4, 0>>))]
     [] l[1] = "other"  -> [ev |-> RxEv(l[2], 8, Pad8(<<1, 2, 3>>)), r |-> Rx(nn, l[2], 8, Pad8(<<1, 2, 3>>))]
     [] l[1] = "setmode" -> [ev |-> <<"nmt_set", l[2]>>, r |-> ApiSetMode(nn, l[2])]
+    [] l[1] = "bootup" -> [ev |-> <<"nmt_bootup">>, r |-> Bootup(nn)]
     [] l[1] = "emcyset" -> [ev |-> <<"emcy_set", 0>>, r |-> EmcySet1(nn)]
     [] l[1] = "emcyclr" -> [ev |-> <<"emcy_clr", 0>>, r |-> EmcyClr1(nn)]
     [] l[1] = "trig"   -> [ev |-> <<"tpdo_trig", 0>>, r |-> TpdoTrig0(nn)]
@@ -50,10 +51,11 @@ HasCanRx(out) == \E k \in 1..Len(out) : out[k][1] = "cb" /\ out[k][2] = "canrx"
 \* C09 claims about one step of the reference
 C09Ok(n0, l, r) ==
   \* exactly one boot-up frame per entry to PRE-OPERATIONAL from initialisation
-  /\ Boots(r.out) = (IF n0.mode = INIT /\ r.n.mode = PREOP THEN 1
+  \* (an application that forces a mode with CONmtSetMode bypasses the boot-up protocol: no frame)
+  /\ Boots(r.out) = (IF l[1] = "setmode" THEN 0 ELSE IF n0.mode = INIT /\ r.n.mode = PREOP THEN 1
                      ELSE IF l[1] = "nmt" /\ l[2] \in {129, 130} /\ NmtOK(n0.mode) /\ l[3] \in {0, NodeId} THEN 1 ELSE 0)
   \* the mode changes only by a command addressed to this node / all nodes, or by the application
-  /\ (r.n.mode # n0.mode => (l[1] = "setmode" \/ (l[1] = "nmt" /\ l[3] \in {0, NodeId} /\ l[2] \in {1, 2, 128, 129, 130})))
+  /\ (r.n.mode # n0.mode => (l[1] \in {"setmode", "bootup"} \/ (l[1] = "nmt" /\ l[3] \in {0, NodeId} /\ l[2] \in {1, 2, 128, 129, 130})))
   \* services react only where permitted
   /\ (l[1] \in {"sdowr", "sdord"} /\ ~SdoOK(n0.mode) => Txs(r.out) = 0)
   /\ (l[1] = "rpdo" /\ ~PdoOK(n0.mode) => r.n.r8 = n0.r8)
@@ -104,4 +106,8 @@ Probe == RunLetters(n, ProbeLetters, <<>>)
 Cfg == [n |-> NodeId, hb |-> HbInit, hc |-> HcInit]
 EmitEdge == hist = <<>> \/ PrintT(<<"EDGE", ToJson([c |-> Cfg, s |-> prev, e |-> hist[Len(hist)], d |-> View, p |-> Probe])>>)
 EmitWalk == Len(hist) < WalkLen \/ (PrintT(<<"WALK", ToJson([c |-> Cfg, h |-> hist, p |-> Probe])>>) /\ FALSE)
+\* VIEW of the model-checking configurations: TLC evaluates invariants only on states it has not seen before, and "seen" is
+\* decided on the VIEW; a step verdict kept in a ghost variable must therefore be part of it, or a violating edge INTO A KNOWN
+\* STATE would be discarded unexamined (the generation configurations keep the plain View: the verdict is not behaviour)
+ViewM == <<View, gh>>
 =============================================================================
